@@ -3,7 +3,7 @@
 //! evaluated after every step (DESIGN.md 4.1-4.3): I1-I5 (C13), S1-S5 (C19), K1-K3 (C02).
 
 use std::cell::Cell;
-use std::collections::{BTreeSet, HashSet};
+use std::collections::{BTreeMap, BTreeSet, HashSet};
 use std::io::BufReader;
 use std::rc::Rc;
 
@@ -128,6 +128,8 @@ pub enum Op {
     FreeShift,
     ForeignFind(u64),
     Redo(usize),
+    /// a blanked step (left behind by minimisation so that step numbers stay stable)
+    Nop,
     // U-world: BDDSet clients
     SetNew,
     SetFromElement(usize),
@@ -171,6 +173,7 @@ impl Op {
             Op::FreeShift => "free-shift".into(),
             Op::ForeignFind(_) => "foreign-find".into(),
             Op::Redo(_) => "redo".into(),
+            Op::Nop => "nop".into(),
             Op::SetNew => "set.with_env".into(),
             Op::SetFromElement(_) => "set.from_element".into(),
             Op::SetFromBdd(_) => "set.from_bdd".into(),
@@ -561,6 +564,7 @@ fn tee(filter: u8) -> TruthTableEntry {
 fn apply<S: BDDSymbol>(
     env: &BDDEnv<S>,
     sym: &dyn Fn(usize) -> S,
+    nvars: usize,
     op: &Op,
     args: &[Rc<BDD<S>>],
 ) -> Res<S> {
@@ -616,7 +620,7 @@ fn apply<S: BDDSymbol>(
                 }
                 // reenter: unrelated environment traffic from inside the transformer
                 for j in 0..s.reenter {
-                    let v = env.var(sym(j as usize % 3));
+                    let v = env.var(sym(j as usize % nvars.max(1)));
                     let t = env.and(v, Rc::clone(&g));
                     let _ = env.exists(vec![sym(0)], env.or(t, Rc::clone(&x)));
                 }
@@ -724,7 +728,9 @@ pub struct Exec<'p, W: World> {
     n: usize,
     names: Vec<Rc<String>>,
     env: Rc<BDDEnv<W::S>>,
-    handles: Vec<Handle<W::S>>,
+    /// live handles keyed by a stable id: 0/1 = the constants, k+2 = created by plan step k
+    handles: BTreeMap<usize, Handle<W::S>>,
+    cur_step: usize,
     log: Vec<LogEntry<W::S>>,
     junk: Vec<Vec<u8>>,
     ext: W::Ext,
@@ -754,7 +760,7 @@ pub struct NExt {
 
 impl World for UWorld {
     type S = usize;
-    type Ext = Vec<SetSlot>;
+    type Ext = BTreeMap<usize, SetSlot>;
     fn sym(_: &[Rc<String>], i: usize) -> usize {
         i
     }
@@ -762,10 +768,10 @@ impl World for UWorld {
         *s
     }
     fn new_ext() -> Self::Ext {
-        Vec::new()
+        BTreeMap::new()
     }
     fn extra_roots(ex: &Exec<Self>) -> Vec<Rc<BDD<usize>>> {
-        ex.ext.iter().map(|s| s.set.bdd.borrow().clone()).collect()
+        ex.ext.values().map(|s| s.set.bdd.borrow().clone()).collect()
     }
     fn world_step(ex: &mut Exec<Self>, step_no: usize, step: &Step) -> Result<bool, Violation> {
         ex.set_step(step_no, step)
@@ -821,7 +827,8 @@ impl<'p, W: World> Exec<'p, W> {
             n: plan.nvars,
             names,
             env,
-            handles: Vec::new(),
+            handles: BTreeMap::new(),
+            cur_step: 0,
             log: Vec::new(),
             junk: Vec::new(),
             ext: W::new_ext(),
@@ -837,11 +844,14 @@ impl<'p, W: World> Exec<'p, W> {
         };
         let f = ex.env.mk_const(false);
         let t = ex.env.mk_const(true);
-        ex.handles.push(Handle { rc: f, tt: 0 });
-        ex.handles.push(Handle {
-            rc: t,
-            tt: low_mask(plan.nvars),
-        });
+        ex.handles.insert(0, Handle { rc: f, tt: 0 });
+        ex.handles.insert(
+            1,
+            Handle {
+                rc: t,
+                tt: low_mask(plan.nvars),
+            },
+        );
         ex
     }
 
@@ -857,24 +867,36 @@ impl<'p, W: World> Exec<'p, W> {
         walk64(node, self.n, &|s| W::idx(s))
     }
 
+    /// A selector names "the newest live handle created at or before step (sel mod current step)".
+    /// Ids are stable, so blanking an unrelated step of a plan does not re-route other operands.
+    fn pick_id(&self, sel: usize) -> usize {
+        let target = sel % (self.cur_step + 2);
+        *self
+            .handles
+            .range(..=target)
+            .next_back()
+            .map(|(k, _)| k)
+            .expect("handle 0 is never dropped")
+    }
+
     fn pick(&self, sel: usize) -> Rc<BDD<W::S>> {
-        Rc::clone(&self.handles[sel % self.handles.len()].rc)
+        Rc::clone(&self.handles[&self.pick_id(sel)].rc)
     }
 
     fn keep(&mut self, rc: Rc<BDD<W::S>>, tt: u64) {
-        if self.handles.len() < MAX_HANDLES {
-            self.handles.push(Handle { rc, tt });
-        } else {
-            let k = 2 + (tt as usize ^ self.handles.len()) % (MAX_HANDLES - 2);
-            self.handles[k] = Handle { rc, tt };
+        if self.handles.len() >= MAX_HANDLES {
+            if let Some(oldest) = self.handles.range(2..).next().map(|(k, _)| *k) {
+                self.handles.remove(&oldest);
+            }
         }
+        self.handles.insert(self.cur_step + 2, Handle { rc, tt });
     }
 
     // ---- oracles ---------------------------------------------------------------------------
 
     /// I1: every live handle still denotes the function recorded when it was handed out.
     fn check_i1(&self, step: usize, opname: &str) -> Result<(), Violation> {
-        for (k, h) in self.handles.iter().enumerate() {
+        for (k, h) in self.handles.iter() {
             match self.walk(&h.rc) {
                 Ok(tt) if tt == h.tt => {}
                 Ok(tt) => {
@@ -916,7 +938,7 @@ impl<'p, W: World> Exec<'p, W> {
             return Err(viol("C13", "I4", opname, step, "size() differs from the table length".into()));
         }
         let mut seen: HashSet<*const BDD<W::S>> = HashSet::new();
-        let mut stack: Vec<Rc<BDD<W::S>>> = self.handles.iter().map(|h| Rc::clone(&h.rc)).collect();
+        let mut stack: Vec<Rc<BDD<W::S>>> = self.handles.values().map(|h| Rc::clone(&h.rc)).collect();
         stack.extend(W::extra_roots(self));
         while let Some(node) = stack.pop() {
             if !seen.insert(Rc::as_ptr(&node)) {
@@ -997,9 +1019,10 @@ impl<'p, W: World> Exec<'p, W> {
 
     /// K3 over all pairs of live handles.
     fn check_k3(&self, step: usize, opname: &str) -> Result<(), Violation> {
-        for i in 0..self.handles.len() {
-            for j in (i + 1)..self.handles.len() {
-                let (a, b) = (&self.handles[i], &self.handles[j]);
+        let hs: Vec<(&usize, &Handle<W::S>)> = self.handles.iter().collect();
+        for x in 0..hs.len() {
+            for y in (x + 1)..hs.len() {
+                let ((i, a), (j, b)) = (hs[x], hs[y]);
                 let eq = a.rc == b.rc;
                 if eq != (a.tt == b.tt) {
                     return Err(viol(
@@ -1028,7 +1051,7 @@ impl<'p, W: World> Exec<'p, W> {
                 self.check_i4(step, opname)?;
             }
             "C02" => {
-                for (k, h) in self.handles.iter().enumerate() {
+                for (k, h) in self.handles.iter() {
                     // K2 needs the recorded function; a handle that changed meaning is I1's business,
                     // so the current function is used here
                     let tt = self.walk(&h.rc).map_err(|e| viol("C02", "K1", opname, step, e))?;
@@ -1107,11 +1130,12 @@ impl<'p, W: World> Exec<'p, W> {
         let size_before = self.env.size();
 
         let names = self.names.clone();
+        let nvars = self.n;
         let symf = move |i: usize| W::sym(&names, i);
         rsbdd::verif_hooks::reset();
         rsbdd::verif_hooks::set_budget(Some(STEP_TICK_BUDGET));
         let env = Rc::clone(&self.env);
-        let shared = catch(|| apply(&env, &symf, op, &args));
+        let shared = catch(|| apply(&env, &symf, nvars, op, &args));
         rsbdd::verif_hooks::set_budget(None);
 
         if matches!(shared, Caught::Budget) {
@@ -1142,7 +1166,7 @@ impl<'p, W: World> Exec<'p, W> {
         if want_fresh {
             let fargs: Vec<Rc<BDD<W::S>>> = args.iter().map(|a| recreate(&fresh_env, a)).collect();
             rsbdd::verif_hooks::set_budget(Some(STEP_TICK_BUDGET));
-            let r = catch(|| apply(&fresh_env, &symf, op, &fargs));
+            let r = catch(|| apply(&fresh_env, &symf, nvars, op, &fargs));
             rsbdd::verif_hooks::set_budget(None);
             if matches!(r, Caught::Budget) {
                 self.budget_hit = true;
@@ -1286,9 +1310,9 @@ impl<'p, W: World> Exec<'p, W> {
     fn fault_step(&mut self, step_no: usize, step: &Step) -> Result<bool, Violation> {
         match &step.op {
             Op::DropHandle(s) => {
-                if self.handles.len() > 2 {
-                    let k = 2 + s % (self.handles.len() - 2);
-                    let h = self.handles.remove(k);
+                let k = self.pick_id(*s);
+                if k >= 2 {
+                    let h = self.handles.remove(&k).expect("picked id is live");
                     self.log.retain(|e| {
                         !e.args.iter().any(|a| Rc::ptr_eq(a, &h.rc))
                             && !matches!(&e.res, Res::Bdd(r) if Rc::ptr_eq(r, &h.rc))
@@ -1299,8 +1323,8 @@ impl<'p, W: World> Exec<'p, W> {
                 Ok(true)
             }
             Op::CloneHandle(s) => {
-                let k = s % self.handles.len();
-                let (rc, tt) = (Rc::clone(&self.handles[k].rc), self.handles[k].tt);
+                let k = self.pick_id(*s);
+                let (rc, tt) = (Rc::clone(&self.handles[&k].rc), self.handles[&k].tt);
                 self.keep(rc, tt);
                 bump(&mut self.stats, "fault.clone-handle");
                 self.faults_fired += 1;
@@ -1354,10 +1378,11 @@ impl<'p, W: World> Exec<'p, W> {
                     return Ok(true);
                 }
                 let names = self.names.clone();
+                let nvars = self.n;
                 let symf = move |i: usize| W::sym(&names, i);
                 let env = Rc::clone(&self.env);
                 rsbdd::verif_hooks::set_budget(Some(STEP_TICK_BUDGET));
-                let r = catch(|| apply(&env, &symf, &e.op, &e.args));
+                let r = catch(|| apply(&env, &symf, nvars, &e.op, &e.args));
                 rsbdd::verif_hooks::set_budget(None);
                 let opname = e.op.name();
                 match r {
@@ -1409,6 +1434,10 @@ impl<'p, W: World> Exec<'p, W> {
         let mut violation: Option<Violation> = None;
         let mut ticks = 0u64;
         for (i, step) in plan.steps.iter().enumerate() {
+            self.cur_step = i;
+            if matches!(step.op, Op::Nop) {
+                continue;
+            }
             if let Some(c) = self.last_client {
                 if c != step.client {
                     self.interleavings += 1;
@@ -1518,7 +1547,7 @@ impl<'p> Exec<'p, UWorld> {
     }
 
     fn check_sets(&self, step: usize, opname: &str) -> Result<(), Violation> {
-        for (k, s) in self.ext.iter().enumerate() {
+        for (k, s) in self.ext.iter() {
             let d = match s.set.bdd.try_borrow() {
                 Ok(d) => Rc::clone(&d),
                 Err(_) => return Err(viol("C19", "S5", opname, step, format!("set #{k} is left mutably borrowed"))),
@@ -1537,25 +1566,37 @@ impl<'p> Exec<'p, UWorld> {
         Ok(())
     }
 
+    /// newest live set created at or before step (sel mod current step), else the oldest one
+    fn set_id(&self, sel: usize) -> Option<usize> {
+        let target = sel % (self.cur_step + 1);
+        self.ext
+            .range(..=target)
+            .next_back()
+            .map(|(k, _)| *k)
+            .or_else(|| self.ext.keys().next().copied())
+    }
+
     fn set_step(&mut self, step_no: usize, step: &Step) -> Result<bool, Violation> {
         let b = self.plan.set_bits;
         let opname = step.op.name();
         let c19 = self.prop() == "C19";
         let nsets = self.ext.len();
-        let need = |k: usize| -> bool { k <= nsets && nsets > 0 };
+        let new_id = self.cur_step;
         match &step.op {
             Op::SetNew => {
                 if nsets < 4 {
                     let set = BDDSet::with_env(b, &self.env);
-                    self.ext.push(SetSlot { set, model: BTreeSet::new() });
+                    self.ext.insert(new_id, SetSlot { set, model: BTreeSet::new() });
                 }
             }
             Op::SetFromElement(e) => {
                 if nsets < 4 {
                     let env = Rc::clone(&self.env);
-                    let e = *e;
+                    let e = *e % (1usize << b);
                     match catch(|| BDDSet::from_element(e, b, &env)) {
-                        Caught::Ok(set) => self.ext.push(SetSlot { set, model: [e].into_iter().collect() }),
+                        Caught::Ok(set) => {
+                            self.ext.insert(new_id, SetSlot { set, model: [e].into_iter().collect() });
+                        }
                         Caught::Panic(m, l) if c19 => return Err(viol("C19", "S5", &format!("{opname}@{l}"), step_no, format!("{opname} panicked: {m} @ {l}"))),
                         _ => {}
                     }
@@ -1566,29 +1607,39 @@ impl<'p> Exec<'p, UWorld> {
                     let h = self.pick(*sel);
                     if let Ok(model) = self.set_members(&h) {
                         let set = BDDSet::from_bdd(&h, b, &self.env);
-                        self.ext.push(SetSlot { set, model });
+                        self.ext.insert(new_id, SetSlot { set, model });
                         bump(&mut self.stats, "probe.set.from_bdd");
                     }
                 }
             }
-            Op::SetToHandle(s) if need(1) => {
-                let d = Rc::clone(&self.ext[s % nsets].set.bdd.borrow());
-                if let Ok(tt) = self.walk(&d) {
-                    self.keep(d, tt);
+            Op::SetToHandle(s) => {
+                if let Some(k) = self.set_id(*s) {
+                    let d = Rc::clone(&self.ext[&k].set.bdd.borrow());
+                    if let Ok(tt) = self.walk(&d) {
+                        self.keep(d, tt);
+                    }
                 }
             }
-            Op::SetDrop(s) if need(1) => {
-                if nsets > 1 {
-                    self.ext.remove(s % nsets);
+            Op::SetDrop(s) => {
+                if let (Some(k), true) = (self.set_id(*s), nsets > 1) {
+                    self.ext.remove(&k);
                     bump(&mut self.stats, "fault.drop-handle");
                     self.faults_fired += 1;
                 }
             }
-            Op::SetInsert(..) | Op::SetBin(..) | Op::SetEmpty(_) | Op::SetUniverse(_) | Op::SetContains(..) if need(1) => {
-                let before: Vec<BTreeSet<usize>> = if c19 {
+            Op::SetInsert(..) | Op::SetBin(..) | Op::SetEmpty(_) | Op::SetUniverse(_) | Op::SetContains(..) => {
+                let (s_sel, o_sel) = match &step.op {
+                    Op::SetInsert(s, _) | Op::SetEmpty(s) | Op::SetUniverse(s) | Op::SetContains(s, _) => (*s, *s),
+                    Op::SetBin(_, s, o) => (*s, *o),
+                    _ => unreachable!(),
+                };
+                let (Some(k), Some(j)) = (self.set_id(s_sel), self.set_id(o_sel)) else {
+                    return Ok(true);
+                };
+                let before: Vec<(usize, BTreeSet<usize>)> = if c19 {
                     self.ext
                         .iter()
-                        .map(|s| self.set_members(&s.set.bdd.borrow()).unwrap_or_default())
+                        .map(|(id, s)| (*id, self.set_members(&s.set.bdd.borrow()).unwrap_or_default()))
                         .collect()
                 } else {
                     Vec::new()
@@ -1597,43 +1648,36 @@ impl<'p> Exec<'p, UWorld> {
                 let mut expect_contains: Option<bool> = None;
                 let mut aliased = false;
                 let r = match &step.op {
-                    Op::SetInsert(s, e) => {
-                        let (k, e) = (s % nsets, *e);
+                    Op::SetInsert(_, e) => {
+                        let e = *e % (1usize << b);
                         catch(|| {
-                            sets[k].set.insert(e);
+                            sets[&k].set.insert(e);
                             None
                         })
                     }
-                    Op::SetBin(kind, s, o) => {
-                        let (k, j) = (s % nsets, o % nsets);
+                    Op::SetBin(kind, _, _) => {
                         aliased = k == j;
                         catch(|| {
                             match kind {
-                                SetBinKind::Union => sets[k].set.union(&sets[j].set),
-                                SetBinKind::Intersect => sets[k].set.intersect(&sets[j].set),
-                                SetBinKind::Complement => sets[k].set.complement(&sets[j].set),
+                                SetBinKind::Union => sets[&k].set.union(&sets[&j].set),
+                                SetBinKind::Intersect => sets[&k].set.intersect(&sets[&j].set),
+                                SetBinKind::Complement => sets[&k].set.complement(&sets[&j].set),
                             };
                             None
                         })
                     }
-                    Op::SetEmpty(s) => {
-                        let k = s % nsets;
-                        catch(|| {
-                            sets[k].set.empty();
-                            None
-                        })
-                    }
-                    Op::SetUniverse(s) => {
-                        let k = s % nsets;
-                        catch(|| {
-                            sets[k].set.universe();
-                            None
-                        })
-                    }
-                    Op::SetContains(s, e) => {
-                        let (k, e) = (s % nsets, *e);
-                        expect_contains = Some(sets[k].model.contains(&e));
-                        catch(|| Some(sets[k].set.contains(e)))
+                    Op::SetEmpty(_) => catch(|| {
+                        sets[&k].set.empty();
+                        None
+                    }),
+                    Op::SetUniverse(_) => catch(|| {
+                        sets[&k].set.universe();
+                        None
+                    }),
+                    Op::SetContains(_, e) => {
+                        let e = *e % (1usize << b);
+                        expect_contains = Some(sets[&k].model.contains(&e));
+                        catch(|| Some(sets[&k].set.contains(e)))
                     }
                     _ => unreachable!(),
                 };
@@ -1643,20 +1687,20 @@ impl<'p> Exec<'p, UWorld> {
                 }
                 // reference model
                 match &step.op {
-                    Op::SetInsert(s, e) => {
-                        self.ext[s % nsets].model.insert(*e);
+                    Op::SetInsert(_, e) => {
+                        self.ext.get_mut(&k).expect("live set").model.insert(*e % (1usize << b));
                     }
-                    Op::SetBin(kind, s, o) => {
-                        let other = self.ext[o % nsets].model.clone();
-                        let m = &mut self.ext[s % nsets].model;
+                    Op::SetBin(kind, _, _) => {
+                        let other = self.ext[&j].model.clone();
+                        let m = &mut self.ext.get_mut(&k).expect("live set").model;
                         *m = match kind {
                             SetBinKind::Union => m.union(&other).copied().collect(),
                             SetBinKind::Intersect => m.intersection(&other).copied().collect(),
                             SetBinKind::Complement => m.difference(&other).copied().collect(),
                         };
                     }
-                    Op::SetEmpty(s) => self.ext[s % nsets].model.clear(),
-                    Op::SetUniverse(s) => self.ext[s % nsets].model = (0..(1usize << b)).collect(),
+                    Op::SetEmpty(_) => self.ext.get_mut(&k).expect("live set").model.clear(),
+                    Op::SetUniverse(_) => self.ext.get_mut(&k).expect("live set").model = (0..(1usize << b)).collect(),
                     _ => {}
                 }
                 self.nonconst_results += 1;
@@ -1672,15 +1716,15 @@ impl<'p> Exec<'p, UWorld> {
                         }
                         if expect_contains.is_some() {
                             // S3: queries are pure
-                            for (k, s) in self.ext.iter().enumerate() {
-                                let now = self.set_members(&s.set.bdd.borrow()).unwrap_or_default();
-                                if now != before[k] {
+                            for (id, was) in &before {
+                                let now = self.set_members(&self.ext[id].set.bdd.borrow()).unwrap_or_default();
+                                if now != *was {
                                     return Err(viol(
                                         "C19",
                                         "S3",
                                         &opname,
                                         step_no,
-                                        format!("a contains query changed set #{k} from {:?} to {:?}", before[k], now),
+                                        format!("a contains query changed set #{id} from {:?} to {:?}", was, now),
                                     ));
                                 }
                             }
@@ -1825,7 +1869,7 @@ impl<'p> Exec<'p, NWorld> {
                 }
             }
             Op::Convert(sel) => {
-                let h = &self.handles[sel % self.handles.len()];
+                let h = &self.handles[&self.pick_id(*sel)];
                 let conv: BDD<usize> = BDD::<usize>::from(h.rc.as_ref().clone());
                 bump(&mut self.stats, "probe.convert");
                 if self.prop() == "C02" {
@@ -1857,6 +1901,19 @@ impl<'p> Exec<'p, NWorld> {
 // Entry points
 // ---------------------------------------------------------------------------------------------
 
+/// A plan is well-formed when every variable / name it mentions is one of the run's variables
+/// (minimisation must not turn a violation into an artefact of an ill-formed plan).
+pub fn plan_valid(plan: &EnvPlan) -> bool {
+    let names = &plan.names[..plan.nvars.min(plan.names.len())];
+    plan.nvars >= 1
+        && plan.names.len() >= plan.nvars
+        && plan.steps.iter().all(|s| match &s.op {
+            Op::Var(i) | Op::Infer(_, i) => *i < plan.nvars,
+            Op::Formula(f, _, _) => f.names_in_text_order().iter().all(|n| names.contains(n)),
+            _ => true,
+        })
+}
+
 pub fn execute(plan: &EnvPlan) -> RunOutcome {
     rsbdd::verif_hooks::reset();
     match plan.world {
@@ -1886,6 +1943,9 @@ pub fn minimise(plan: &EnvPlan, v: &Violation) -> (EnvPlan, Violation) {
     let mut best_v = v.clone();
     let mut budget = 4000usize;
     let same = |p: &EnvPlan| -> Option<Violation> {
+        if !plan_valid(p) {
+            return None;
+        }
         let out = execute(p);
         out.violations
             .into_iter()
@@ -1900,22 +1960,36 @@ pub fn minimise(plan: &EnvPlan, v: &Violation) -> (EnvPlan, Violation) {
             best_v = nv;
         }
     }
-    let steps = best.steps.clone();
-    let mut last: Option<Violation> = None;
-    let kept = crate::core::ddmin(steps, &mut budget, &mut |cand: &[Step]| {
+    // ddmin over step *positions*: a removed step is blanked (Op::Nop) so that step numbers,
+    // and with them every operand selector, keep their meaning
+    let positions: Vec<usize> = (0..best.steps.len()).filter(|i| !matches!(best.steps[*i].op, Op::Nop)).collect();
+    let blank = |keep: &[usize]| -> EnvPlan {
         let mut p = best.clone();
-        p.steps = cand.to_vec();
-        match same(&p) {
-            Some(nv) => {
-                last = Some(nv);
-                true
+        for (i, st) in p.steps.iter_mut().enumerate() {
+            if !keep.contains(&i) {
+                st.op = Op::Nop;
             }
-            None => false,
         }
-    });
-    best.steps = kept;
+        p
+    };
+    let kept = crate::core::ddmin(positions, &mut budget, &mut |cand: &[usize]| same(&blank(cand)).is_some());
+    best = blank(&kept);
     if let Some(nv) = same(&best) {
         best_v = nv;
+    }
+    // try to drop the blanks altogether (renumbers steps; kept only if the same oracle still fires)
+    {
+        let mut p = best.clone();
+        p.steps.retain(|s| !matches!(s.op, Op::Nop));
+        if let Some(nv) = same(&p) {
+            best = p;
+            best_v = nv;
+        } else {
+            // at least drop trailing blanks
+            while matches!(best.steps.last().map(|s| &s.op), Some(Op::Nop)) {
+                best.steps.pop();
+            }
+        }
     }
     // per-step simplification
     let mut improved = true;
